@@ -177,6 +177,9 @@ func Small() []Doc {
 		{"srt-cr", "srt", []byte(cr(srtLF)), true},
 		{"srt-bom-noindex-eofblank", "srt", []byte("\xef\xbb\xbf00:00:01,000 --> 00:00:02,000 X1:1 X2:2\r\na\r\n\r\n\r\n00:00:03.5 --> 00:00:04.25\r\n<font color=\"red\">b</font>\r\n\r\n\r\n"), true},
 		{"srt-40-cues", "srt", []byte(srtMany(40)), true},
+		// cue lists a conversion must carry over AS THEY ARE: not in start order, with equal times, with equal texts
+		{"srt-unordered", "srt", []byte("1\n00:00:05,000 --> 00:00:06,000\nfive\n\n2\n00:00:01,000 --> 00:00:02,000\none\n\n3\n00:00:03,000 --> 00:00:04,500\nthree\n"), true},
+		{"vtt-equal-times-equal-texts", "vtt", []byte("WEBVTT\n\n00:01.000 --> 00:02.000\nsame\n\n00:01.000 --> 00:02.000\nother\n\n00:02.000 --> 00:03.000\nsame\n\n00:02.000 --> 00:03.000\nsame\n"), true},
 		{"srt-invalid-time", "srt", []byte("1\n00:00:01,000 --> 00:0x:02,000\na\n"), false},
 		{"srt-no-end", "srt", []byte("1\n00:00:01,000 -->\na\n"), false},
 		{"vtt-full", "vtt", []byte(vttFull), true},
